@@ -56,6 +56,8 @@ impl std::ops::Add<Duration> for Instant {
 
 pub assume_specification [Duration::as_micros] (d: &Duration) -> (r: u128)
     ensures r == dur_ns(*d) / 1000;
+pub assume_specification [Duration::as_nanos] (d: &Duration) -> (r: u128)
+    ensures r == dur_ns(*d);
 pub assume_specification [Duration::from_micros] (us: u64) -> (r: Duration)
     ensures dur_ns(r) == us * 1000;
 pub assume_specification [Duration::from_secs] (s: u64) -> (r: Duration)
